@@ -42,12 +42,14 @@ FORCE = [['recursion'], ['mutual'], ['nested_calls'], ['try_caught'], ['finally_
 
 
 class Inv:
-    __slots__ = ('fid', 'func', 'base', 'tid', 'call_seq', 'ret_seq', 'outcome', 'pending_exc', 'depth', 'is_gen')
+    __slots__ = ('fid', 'func', 'base', 'tid', 'call_seq', 'ret_seq', 'outcome', 'pending_exc', 'depth', 'is_gen',
+                 'rendered')
 
     def __init__(self, ev, depth):
         self.fid, self.func, self.base, self.tid = ev.fid, ev.func, ev.base, ev.tid
         self.call_seq, self.ret_seq, self.outcome, self.pending_exc, self.depth = ev.seq, None, None, None, depth
         self.is_gen = False
+        self.rendered = None
 
 
 def case_deferred(seed, out, spec, wd, idx):
@@ -143,6 +145,9 @@ def case_deferred(seed, out, spec, wd, idx):
                     inv.outcome = ('exception', inv.pending_exc[1] if isinstance(inv.pending_exc, tuple) else inv.pending_exc)
                 else:
                     inv.outcome = ('return', arg)
+                    # rendered now: the text of a value can change later (e.g. a weakref whose referent dies)
+                    inv.rendered = (type(arg).__name__, snapcheck.safe_str(arg),
+                                    len(arg) if type(arg) in (dict,) + snapcheck.BUILTIN_SEQ else None)
         with lock:
             by_event_inv[ev.seq] = inv
 
@@ -313,7 +318,7 @@ def check_capture(where, snap, inv, probs):
                           '%s: the invocation returned %s but the capture reports %r (%s)' % (
                               where, short(value, 60), w.expression, ent.type)))
             return
-        p = snapcheck.value_problem(value, ent, snapcheck.default_limits()['max_str'])
+        p = _rendered_problem(inv.rendered, ent) if inv.rendered else None
         if p:
             mech = 'deferred:recursion-inner-result' if inv.depth is not None and ent.type == type(value).__name__ \
                 else 'deferred:capture-wrong-value'
@@ -324,6 +329,23 @@ def check_capture(where, snap, inv, probs):
         if w.expression != 'exception' or type(value).__name__ not in names:
             probs.append(('deferred:capture-wrong-value', '%s: the invocation raised %s, the capture says %s of types %s' % (
                 where, type(value).__name__, w.expression, sorted(names))))
+
+
+def _rendered_problem(rendered, ent):
+    tname, text, length = rendered
+    if ent.type != tname:
+        return 'type %r reported for a %s' % (ent.type, tname)
+    if length is not None:
+        import re
+        if not re.search(r'(?<!\d)%d(?!\d)' % length, ent.value) and ent.value != (text or '')[:len(ent.value)]:
+            return 'container of %d elements rendered as %r' % (length, ent.value[:60])
+        return None
+    if text is None or 'iterator' in tname or 'generator' in tname:
+        return None
+    lim = snapcheck.default_limits()['max_str']
+    if ent.value != text[:lim]:
+        return 'value %r is not str(obj)=%r' % (ent.value[:60], text[:60])
+    return None
 
 
 def run_shard(spec, out):
